@@ -1,21 +1,210 @@
 /-
   C07 — HPACK: header lists survive both directions for the whole connection.
-  Property theorems only (helper lemmas live in LtVerif/Proofs/Hpack*.lean).
+  Property theorems only (helper lemmas: LtVerif/Proofs/Hpack*.lean).
+
+  The model (LtVerif/Model/Hpack*.lean) is lshpack's decoder as it is
+  (integer, string, Huffman 4-bit automaton over the *extracted*
+  decode_tables, static + dynamic table, size updates, the decode loops of
+  h2_parse_headers_frame / h2_discard_headers_frame) plus a reference encoder
+  `encodeBlock` that stands for any conformant peer: it is parameterised by an
+  arbitrary list of `Choice`s (indexed / literal with, without, never indexing;
+  name by index or literal; Huffman or raw for name and value; any dynamic
+  table size updates).
 -/
-import LtVerif.Model.Hpack
+import LtVerif.Proofs.Hpack
 namespace LtVerif.C07
 open LtVerif B Hpack
 
-/-- placeholder while the proofs are being built -/
-theorem c07_evict_bound (cap : Nat) (t : List Header) : tableSize (evict cap t) ≤ cap := by
-  induction t generalizing cap with
-  | nil => simp [evict, tableSize]
-  | cons h t ih =>
-    simp only [evict]
-    split
-    · have := ih (cap - entrySize h)
-      simp only [tableSize, List.map_cons, List.sum_cons] at *
-      omega
-    · simp [tableSize]
+/-- Integers (RFC 7541 5.1): lshpack_dec_dec_int() reads back every uint32 for
+    every prefix width and every pattern `hi` in the bits above the prefix,
+    whatever follows — including the 5-octet branch (values ≥ 2^28). -/
+theorem c07_int_roundtrip (pbits hi n : Nat) (rest : Bytes)
+    (hhi : hi % 2 ^ pbits = 0) (hfit : hi + 2 ^ pbits ≤ 256) (hn : n < 2 ^ 32) :
+    decInt pbits (encInt pbits hi n ++ rest) = some (n, rest) :=
+  decInt_encInt pbits hi n rest hhi hfit hn
+
+example : decInt 5 (encInt 5 32 1337 ++ [7]) = some (1337, [7]) := by decide
+example : encInt 5 0 1337 = [31, 154, 10] := by decide
+example : (32 : Nat) % 2 ^ 5 = 0 ∧ 32 + 2 ^ 5 ≤ 256 ∧ 1337 < 2 ^ 32 := by decide
+
+/-- Huffman: the table-driven decoder of lshpack (4-bit automaton over the
+    decode_tables[256][16] extracted from huff-tables.h) reads back every octet
+    string encoded with the extracted encode_table[], EOS-padded — for all
+    strings, provided the output buffer is larger than the string (the C
+    answers MORE_BUF when the buffer is exactly full). A changed entry in
+    either C table breaks this proof (kernel-checked certificates). -/
+theorem c07_huffman_roundtrip (cap : Nat) (s : Bytes) (h : s.length < cap) :
+    huffDecode cap (huffEncode s) = .ok s :=
+  huffDecode_huffEncode cap s h
+
+example : huffEncode (ofString "www.example.com") =
+    [0xf1, 0xe3, 0xc2, 0xe5, 0xf2, 0x3a, 0x6b, 0xa0, 0xab, 0x90, 0xf4, 0xff] := by decide
+example : huffDecode 100 [0xf1, 0xe3, 0xc2, 0xe5, 0xf2, 0x3a, 0x6b, 0xa0, 0xab, 0x90, 0xf4, 0xff] =
+    .ok (ofString "www.example.com") := by rfl
+
+/-- String literals (RFC 7541 5.2), raw or Huffman coded. -/
+theorem c07_string_roundtrip (cap : Nat) (huff : Bool) (s rest : Bytes)
+    (hlen : s.length < cap) (hcap : cap ≤ 65535) :
+    decStr cap (encStr huff s ++ rest) = .ok (s, rest) :=
+  decStr_encStr cap huff s rest hlen (by omega)
+
+example : decStr 65535 (encStr true (ofString "no-cache") ++ [1, 2]) =
+    .ok (ofString "no-cache", [1, 2]) := by rfl
+
+/-- Request direction, one block: whatever valid encoding the peer chooses
+    (any choice sequence: static/dynamic indexing, literal forms, Huffman or
+    raw, size updates ≤ the SETTINGS limit), the decode loop of
+    h2_parse_headers_frame() yields exactly the encoded name/value list, no
+    error, and leaves the decoder's table equal to the encoder's. -/
+theorem c07_roundtrip (cap : Nat) (hcap : cap ≤ 65535) (d : Dec) (cs : List Choice)
+    (hs : List Header) (hwf : d.tbl.WF) (hok : ∀ h ∈ hs, HeaderOk cap h) :
+    let r := decodeBlock cap d (encodeBlock d.tbl cs hs).1
+    r.err = none ∧ r.fields.map Field.header = hs ∧ r.dec.tbl = (encodeBlock d.tbl cs hs).2 := by
+  obtain ⟨fs, d', h, hm, ht, _⟩ := decodeBlock_encodeBlock cap (by omega) d cs hs hwf hok
+  simp only [h]
+  exact ⟨trivial, hm, ht⟩
+
+/-- non-vacuity: RFC 7541 C.4.1 produced by the reference encoder and decoded -/
+example :
+    (encodeBlock Table.init
+      [{ mode := .indexed, idx := 2 }, { mode := .indexed, idx := 6 }, { mode := .indexed, idx := 4 },
+       { mode := .incr, idx := 1, huffValue := true }]
+      [(ofString ":method", ofString "GET"), (ofString ":scheme", ofString "http"),
+       (ofString ":path", ofString "/"), (ofString ":authority", ofString "www.example.com")]).1 =
+    [0x82, 0x86, 0x84, 0x41, 0x8c, 0xf1, 0xe3, 0xc2, 0xe5, 0xf2, 0x3a, 0x6b, 0xa0, 0xab, 0x90, 0xf4, 0xff] := by
+  decide
+example : Table.init.WF := Table.init_WF
+example : HeaderOk 65535 (ofString ":authority", ofString "www.example.com") :=
+  ⟨by decide, by decide, by decide⟩
+
+/-- Whole connection: over an arbitrarily long history of header blocks —
+    served ones and ones lighttpd only decodes and discards (refused streams,
+    trailers of forgotten streams, streams after a graceful GOAWAY) — mixed
+    with renegotiations of SETTINGS_HEADER_TABLE_SIZE, every served block
+    decodes to exactly the list that was encoded, the connection stays alive,
+    and at the end the decoder's dynamic table equals the encoder's. -/
+theorem c07_tables_sync (cap : Nat) (hcap : cap ≤ 65535) (items : List ConnItem) (d : Dec)
+    (hwf : d.tbl.WF) (hok : ∀ it ∈ items, ItemOk cap it) :
+    let r := recvConn cap d (encodeConn d.tbl items).1
+    r.2.2 = true ∧ r.1.map (·.map Field.header) = servedLists items ∧
+      r.2.1.tbl = (encodeConn d.tbl items).2 := by
+  obtain ⟨ls, d', h, hm, ht⟩ := recvConn_encodeConn cap (by omega) items d hwf hok
+  simp only [h]
+  exact ⟨trivial, hm, ht⟩
+
+/-- non-vacuity: a discarded block inserts an entry that a later served block
+    refers to by index (62 = newest dynamic entry) -/
+example :
+    (recvConn 65535 Dec.init (encodeConn Table.init
+      [.block [{ mode := .incr }] [(ofString "x-a", ofString "1")] .discard,
+       .settings 100,
+       .block [{ mode := .indexed, idx := 62 }] [(ofString "x-a", ofString "1")] .serve]).1).1
+      = [[⟨ofString "x-a", ofString "1", 0, false⟩]] := by decide
+
+/-- The dynamic table never outgrows the negotiated size, whatever arrives:
+    for ARBITRARY received bytes (valid or not), served or discarded, and any
+    SETTINGS changes, the decoder's table size stays ≤ its current maximum ≤
+    the SETTINGS limit. -/
+theorem c07_table_bound (cap : Nat) (ws : List Wire) (d : Dec) (hwf : d.tbl.WF)
+    (hok : ∀ w ∈ ws, WireOk w) :
+    let d' := (recvConn cap d ws).2.1
+    tableSize d'.tbl.dyn ≤ d'.tbl.curMax ∧ d'.tbl.curMax ≤ d'.tbl.maxCap := by
+  have h := recvConn_WF cap ws d hwf hok
+  exact ⟨h.size_le, h.cur_le⟩
+
+example : tableSize (evict 60 [(ofString "x-a", ofString "1"), (ofString "x-b", ofString "22")]) = 36 := by
+  decide
+
+/-- Unambiguity: two header lists that a peer could encode to the same octets
+    (under any two choice sequences, from the same table state) are the same
+    list — the decoder cannot be made to see a different list than was
+    encoded — and leave the same table behind. -/
+theorem c07_encoding_unambiguous (cap : Nat) (hcap : cap ≤ 65535) (t : Table) (hwf : t.WF)
+    (cs₁ cs₂ : List Choice) (hs₁ hs₂ : List Header)
+    (h₁ : ∀ h ∈ hs₁, HeaderOk cap h) (h₂ : ∀ h ∈ hs₂, HeaderOk cap h)
+    (heq : (encodeBlock t cs₁ hs₁).1 = (encodeBlock t cs₂ hs₂).1) :
+    hs₁ = hs₂ ∧ (encodeBlock t cs₁ hs₁).2 = (encodeBlock t cs₂ hs₂).2 := by
+  have r₁ := c07_roundtrip cap hcap ⟨t, []⟩ cs₁ hs₁ hwf h₁
+  have r₂ := c07_roundtrip cap hcap ⟨t, []⟩ cs₂ hs₂ hwf h₂
+  simp only at r₁ r₂
+  rw [heq] at r₁
+  exact ⟨r₁.2.1.symm.trans r₂.2.1, r₁.2.2.symm.trans r₂.2.2⟩
+
+/-- Invalid blocks are errors (1): an indexed representation whose index is 0 or
+    beyond static + dynamic table is BAD_DATA (→ GOAWAY COMPRESSION_ERROR), and
+    nothing is delivered. -/
+theorem c07_bad_index_is_error (cap : Nat) (d : Dec) (idx : Nat) (rest : Bytes)
+    (hidx : idx < 2 ^ 32) (hnone : d.tbl.lookup idx = none) :
+    let r := decodeBlock cap d (encInt 7 128 idx ++ rest)
+    r.err = some .badData ∧ r.fields = [] := by
+  obtain ⟨b, tl, he, hb⟩ := encInt_cons 7 128 idx (by decide)
+  have hd := decInt_encInt 7 128 idx rest (by decide) (by decide) hidx
+  rw [he] at hd
+  simp only [List.cons_append] at hd
+  have hb128 : 128 ≤ b.toNat := by omega
+  have hnot : ¬ (32 ≤ b.toNat ∧ b.toNat < 64) := by omega
+  have hrepr : reprOf b.toNat = (.indexed, some 7) := by simp [reprOf, hb128]
+  have hl : d.lookup idx = none := by simp [Dec.lookup, hnone]
+  have hitem : decodeItem cap d (b :: (tl ++ rest)) = .err .badData d := by
+    by_cases h0 : idx = 0
+    · simp [decodeItem, hnot, hrepr, hd, h0]
+    · simp [decodeItem, hnot, hrepr, hd, h0, hl]
+  simp only [he, List.cons_append, decodeBlock, List.length_cons, decodeBlockAux_succ,
+    hitem]
+  simp
+
+example : (decodeBlock 65535 Dec.init [0xbe]).err = some .badData := by decide
+example : Dec.init.tbl.lookup 62 = none := by decide
+
+/-- Invalid blocks are errors (2): a dynamic table size update above the
+    SETTINGS limit is BAD_DATA. -/
+theorem c07_oversize_update_is_error (cap : Nat) (d : Dec) (n : Nat) (rest : Bytes)
+    (hn : n < 2 ^ 32) (hbig : d.tbl.maxCap < n) :
+    let r := decodeBlock cap d (encInt 5 32 n ++ rest)
+    r.err = some .badData ∧ r.fields = [] ∧ r.dec = d := by
+  obtain ⟨b, tl, he, hb⟩ := encInt_cons 5 32 n (by decide)
+  have hd := decInt_encInt 5 32 n rest (by decide) (by decide) hn
+  rw [he] at hd
+  simp only [List.cons_append] at hd
+  have hin : 32 ≤ b.toNat ∧ b.toNat < 64 := by
+    have := Nat.min_le_right n (2 ^ 5 - 1); omega
+  have hitem : decodeItem cap d (b :: (tl ++ rest)) = .err .badData d := by
+    simp [decodeItem, hin, hd, hbig]
+  simp only [he, List.cons_append, decodeBlock, List.length_cons, decodeBlockAux_succ, hitem]
+  simp
+
+example : (decodeBlock 65535 Dec.init (encInt 5 32 4097 ++ [0x82])).err = some .badData := by decide
+
+/-- Invalid blocks are errors (3): a string literal that announces more octets
+    than the block holds is BAD_DATA. -/
+theorem c07_truncated_string_is_error (cap : Nat) (huff : Nat) (len : Nat) (avail : Bytes)
+    (hh : huff = 0 ∨ huff = 128) (hlen : len < 2 ^ 32) (hshort : avail.length < len) :
+    decStr cap (encInt 7 huff len ++ avail) = .error .badData := by
+  obtain ⟨b, tl, he, _⟩ := encInt_cons 7 huff len (by rcases hh with h | h <;> subst h <;> decide)
+  have hd := decInt_encInt 7 huff len avail (by rcases hh with h | h <;> subst h <;> decide)
+    (by rcases hh with h | h <;> subst h <;> decide) hlen
+  rw [he] at hd ⊢
+  simp only [List.cons_append] at hd ⊢
+  simp [decStr, hd, hshort]
+
+example : decStr 65535 [5, 0x61, 0x62] = .error .badData := by rfl
+
+/-! Deviations of lshpack_dec_decode() from RFC 7541 that the model keeps (the
+    correspondence check replays them against the C on every run): they are
+    leniencies on *invalid* input; see the report. -/
+
+/-- lshpack strips trailing isspace() octets from a literal field name: the
+    (invalid) name "a " arrives as "a" — and is entered into the dynamic table
+    with the shorter name, i.e. with a size the encoder did not account for. -/
+theorem c07_deviation_name_trim :
+    let r := decodeBlock 65535 Dec.init [0x40, 0x02, 0x61, 0x20, 0x01, 0x62]
+    r.err = none ∧ r.fields.map Field.header = [([0x61], [0x62])] ∧
+      tableSize r.dec.tbl.dyn = 34 := by decide
+
+/-- a literal whose value string is missing altogether (block ends after the
+    name) is accepted with an empty value -/
+theorem c07_deviation_missing_value :
+    let r := decodeBlock 65535 Dec.init [0x00, 0x01, 0x61]
+    r.err = none ∧ r.fields.map Field.header = [([0x61], [])] := by decide
 
 end LtVerif.C07
